@@ -76,12 +76,14 @@ def gen(typ, budget, scope, st, opts, shard=_all):
                 yield ('var', bid), 0, free, st
             elif budget >= 1:
                 yield ('var', bid), 1, free, _St(st.done, st.nlit, st.nbind, st.varnodes + (bid,))
+    lc = opts['lit_cost']
+    if typ == 'i' and budget >= lc:
+        yield ('lit', st.nlit), lc, frozenset(), _complete(st, 'i', frozenset(), nlit=st.nlit + 1, lit=True)
     if budget < 1:
         return
     b1 = budget - 1
     lam_scope = tuple(x for x in scope if x[0] != AGG)
     if typ == 'i':
-        yield ('lit', st.nlit), 1, frozenset(), _complete(st, 'i', frozenset(), nlit=st.nlit + 1, lit=True)
         for x, cx, fx, s1 in shard(gen('i', b1, scope, st, opts)):
             for y, cy, fy, s2 in gen('i', b1 - cx, scope, s1, opts):
                 f = fx | fy
@@ -162,7 +164,7 @@ def gen(typ, budget, scope, st, opts, shard=_all):
 
 
 DEFAULT_OPTS = {'if_types': ('i', 'a', 's'), 'let_body_types': ('i', 'a', 's'), 'let_value_types': ('i', 'a', 's'),
-                'ops': ('add', 'mul'), 'share_lits': True, 'arrays': True, 'structs': True, 'agg': None}
+                'ops': ('add', 'mul'), 'share_lits': True, 'arrays': True, 'structs': True, 'agg': None, 'lit_cost': 1}
 
 
 def root_scope(opts):
